@@ -181,7 +181,16 @@ pub fn run_api(only: Option<&str>, workers: usize) -> GrammarReport {
                     // class of the string: a different kind of name failing is a different finding
                     let class = if !s.is_ascii() { "non-ascii" } else if s.split('/').any(|seg| seg == ".") { "dot-segment" } else { "ascii" };
                     for (k, what) in problems {
-                        let k = if k.starts_with("obs:") { k } else { format!("{k}/{class}") };
+                        // root-cause class: the validators accept names the storage layer cannot address
+                        // consistently (non-ASCII alphanumerics are percent-encoded by Path::child but not by
+                        // Path::parse; a "." segment is illegal in object_store paths)
+                        let k = if k.starts_with("obs:") {
+                            k
+                        } else if class != "ascii" {
+                            "grammar/accepted-name-not-addressable-in-storage".to_string()
+                        } else {
+                            format!("{k}/{class}")
+                        };
                         if let Some(o) = k.strip_prefix("obs:") {
                             cov.outcome(&format!("grammar-api:{o}"));
                             continue;
